@@ -513,11 +513,69 @@ class StmtMixin:
                 if r is not None:
                     res.extend(r)
                     continue
+            if not self.is_concrete_iterable(s, itv):
+                r = self.map_loop_as_comprehension(n, s, fr)
+                if r is not None:
+                    res.extend(r)
+                    continue
             items = self.iter_concrete(s, itv, n)
             res.extend(self.unrolled(n, s, fr, items))
         return res
 
     st_AsyncFor = st_For
+
+    def map_loop_as_comprehension(self, n, st, fr):
+        """A loop over an abstract sequence without a loop contract whose body only fills a fresh, still empty local list or
+        dict - `for x in xs: [if c:] acc.append(e)` or `acc[k] = v` - is the comprehension `[e for x in xs if c]` /
+        `{k: v for x in xs if c}` written out; it is executed as that comprehension (the engine's quantified model of
+        comprehensions), so that a maintainer's rewrite of a comprehension as a loop keeps a contract decided.  Returns None
+        when the loop does not have exactly that shape (the caller then reports the missing loop contract)."""
+        if n.orelse or len(n.body) != 1 or isinstance(n, ast.AsyncFor):
+            return None
+        stmt, tests = n.body[0], []
+        while isinstance(stmt, ast.If) and not stmt.orelse and len(stmt.body) == 1:
+            tests.append(stmt.test)
+            stmt = stmt.body[0]
+        acc, comp = None, None
+        gen = ast.comprehension(target=n.target, iter=n.iter, ifs=tests, is_async=0)
+        if (isinstance(stmt, ast.Expr) and isinstance(stmt.value, ast.Call) and isinstance(stmt.value.func, ast.Attribute)
+                and stmt.value.func.attr == "append" and isinstance(stmt.value.func.value, ast.Name)
+                and len(stmt.value.args) == 1 and not stmt.value.keywords and not isinstance(stmt.value.args[0], ast.Starred)):
+            acc, comp, kind = stmt.value.func.value.id, ast.ListComp(elt=stmt.value.args[0], generators=[gen]), HList
+        elif (isinstance(stmt, ast.Assign) and len(stmt.targets) == 1 and isinstance(stmt.targets[0], ast.Subscript)
+              and isinstance(stmt.targets[0].value, ast.Name) and not isinstance(stmt.targets[0].slice, ast.Slice)):
+            acc, comp, kind = stmt.targets[0].value.id, ast.DictComp(key=stmt.targets[0].slice, value=stmt.value, generators=[gen]), HDict
+        if acc is None:
+            return None
+        used_names = {x.id for part in [n.iter, n.target] + tests + ([comp.elt] if isinstance(comp, ast.ListComp) else [comp.key, comp.value])
+                      for x in ast.walk(part) if isinstance(x, ast.Name)}
+        if acc in used_names:
+            return None
+        try:
+            ref = self.lookup(st, fr, acc, n)
+        except Exception:
+            return None
+        if not isinstance(ref, Ref) or not isinstance(st.get(ref), kind):
+            return None
+        h0 = st.get(ref)
+        if h0.items is None or len(h0.items) != 0:
+            return None
+        ast.copy_location(comp, n)
+        ast.fix_missing_locations(comp)
+        out = []
+        for s2, v in self.ev(comp, st, fr):
+            if isinstance(v, Raised):
+                out.append((s2, Ctl("raise", v.exc)))
+                continue
+            if not isinstance(v, Ref) or not isinstance(s2.get(v), kind):
+                return None
+            hr, ha = s2.get(v), s2.get(ref)
+            if kind is HList:
+                ha.items, ha.arr, ha.n, ha.k = hr.items, hr.arr, hr.n, hr.k
+            else:
+                ha.items, ha.dom, ha.val, ha.size, ha.kk, ha.vk = hr.items, hr.dom, hr.val, hr.size, hr.kk, hr.vk
+            out.append((s2, OK))
+        return out
 
     def loop_ordinal(self, fr, n):
         if fr.fn_node is None:
